@@ -377,8 +377,11 @@ def in_env(dev, seed):
 def real_obj(sample, edges, dev=NO_DEV):
     """sample / edges are the represented objects; they are handed over as they are, or as a copy (dev); the object
     returned is the constructed one, or its copy (dev)"""
-    obj = cc_class(dev.get("sub"))(events_multiplicity=cp(sample, dev.get("scopy")),
-                                   centrality_bins=cp(edges, dev.get("ecopy")))
+    def inp(x, mode):
+        # one-shot iterables (which the class must reject) cannot be copied or pickled: they go in as they are
+        return cp(x, mode) if isinstance(x, (list, np.ndarray)) else x
+    obj = cc_class(dev.get("sub"))(events_multiplicity=inp(sample, dev.get("scopy")),
+                                   centrality_bins=inp(edges, dev.get("ecopy")))
     return cp(obj, dev.get("ocopy"))
 
 
